@@ -17,7 +17,7 @@ impl Prop for C11Prop {
         "C11"
     }
     fn rule(&self) -> String {
-        "Streams (proptest tapes): prog / progbig = grammar-derived ASCII-only programs with comments, use_tabs=false, other settings generated; width pairs W1 < W2 from {10,15,20,30,40,60,80,100,120,160,200} and random 8..250; stream tight: W1 within two columns of the length of a line of the wide result and W2 = W1 + {1,2,3,10,40}, or W2 up to 20 columns below that length and W1 a further 1..30 below (boundary-directed). Streams simple / simple_tight: the strictly asserted domain (simple expressions, declarations incl. variant records with several labels, trailing / own-line / mid-statement `//` comments, continuation <= 8 columns). Stream simple_cli: the strict domain through the binary (stdin -> stdout, configuration given with -C), narrow limits 8..30 and indentation units up to 8 emphasised. Stream lits_tight: statements containing valid multi-line string literals followed by further tokens (`'''.Format(A, B)`, call argument, concatenation, first token of the statement, if-condition) 0-3 blocks deep, soft or hard tabs, the same boundary-directed widths. Oracles: (a) if every line of format_W2(x) has <= W1 bytes then format_W1(x) == format_W2(x); (b) lines(format_W2(x)) <= lines(format_W1(x)); (c) if every line of format_W1(x) has <= W1 bytes then every line of format_W2(x) has <= W2. Width = bytes = chars = columns on this domain. Runs where the wrapper logged 'Iteration limit reached' are classified separately. Non-trivial = the two outputs differ, or premise (a) holds with a wrapped line; distinct by hash of (input, configuration, W2)."
+        "Streams (proptest tapes): prog / progbig = grammar-derived ASCII-only programs with comments, use_tabs=false, other settings generated; width pairs W1 < W2 from {10,15,20,30,40,60,80,100,120,160,200} and random 8..250; stream tight: W1 within two columns of the length of a line of the wide result and W2 = W1 + {1,2,3,10,40}, or W2 up to 20 columns below that length and W1 a further 1..30 below (boundary-directed). Streams simple / simple_tight: the strictly asserted domain (simple expressions, declarations incl. variant records with several labels, trailing / own-line / mid-statement `//` comments, continuation <= 8 columns). Stream simple_cli: the strict domain through the binary (stdin -> stdout, configuration given with -C; each output must also equal the library's for the same settings), narrow limits 8..30 and indentation units up to 8 emphasised. Stream lits_tight: statements containing valid multi-line string literals followed by further tokens (`'''.Format(A, B)`, call argument, concatenation, first token of the statement, if-condition) 0-3 blocks deep, soft or hard tabs, the same boundary-directed widths. Oracles: (a) if every line of format_W2(x) has <= W1 bytes then format_W1(x) == format_W2(x); (b) lines(format_W2(x)) <= lines(format_W1(x)); (c) if every line of format_W1(x) has <= W1 bytes then every line of format_W2(x) has <= W2. Width = bytes = chars = columns on this domain. Runs where the wrapper logged 'Iteration limit reached' are classified separately. Non-trivial = the two outputs differ, or premise (a) holds with a wrapped line; distinct by hash of (input, configuration, W2)."
             .into()
     }
     fn assumptions(&self) -> Vec<String> {
@@ -195,6 +195,18 @@ impl Prop for C11Prop {
             }
             let o2 = outs.pop().unwrap().0;
             let o1 = outs.pop().unwrap().0;
+            // the binary is the library plus I/O: the limit it applies is the configured one
+            for (o, cfg) in [(&o1, &case.cfg), (&o2, c2)] {
+                if *o != format_with(cfg, &case.input) {
+                    return Outcome::Fail(
+                        Failure::new(
+                            "cli-vs-library",
+                            format!("the binary's output for wrap_column={} differs from the library's for the same settings", cfg.wrap_column),
+                        )
+                        .fact("via-cli"),
+                    );
+                }
+            }
             (o1, o2, lf)
         } else {
             let o1 = format_with(&case.cfg, &case.input);
